@@ -1256,5 +1256,5 @@ def tasks(tier):
         # round 4: two thin corners of the scenario space as small tasks of their own (see scenario_st), taken out of the budget of `faults`
         Task("faults_dbgflag", strategy=scenario_st(tier, focus="dbgflag"), run=run_faults, examples={"quick": 40, "thorough": 600}),
         Task("faults_dtypes", strategy=scenario_st(tier, focus="dtypes"), run=run_faults, examples={"quick": 40, "thorough": 600}),
-        Task("faults", strategy=scenario_st(tier), run=run_faults, examples={"quick": 700, "thorough": 9000}),
+        Task("faults", strategy=scenario_st(tier), run=run_faults, examples={"quick": 600, "thorough": 9000}),
     ]
